@@ -266,7 +266,7 @@ func (o Options) TypeFromContext(ctxBytes []byte, path string) (string, error) {
 		if ok {
 			ldCtx, err = ldCtx.Parse(nextCtx)
 			if err != nil {
-				return "", nil
+				return "", err
 			}
 		}
 	}
